@@ -128,13 +128,13 @@ VRead(e) ==
        ELSE IF e.got # ExpectedReadGot(C, s) THEN Same("harness_read_answer")
        ELSE V("", f.E, X)
 
-\* IUploadable.close: "The upload is finished": not while segments are still to be read or blocks are on their way - unless
-\* the upload has failed or is bound to fail
 VReadRet(e) == IF ~Reading(E) THEN Same("harness_answer_without_read") ELSE V("", StepReadDone(E), X)
 
+\* IUploadable.close: "The upload is finished": not while segments are still to be read or blocks are on their way - unless
+\* the upload has failed or is bound to fail
 VUClose(e) ==
   LET givenUp == E.res = "failure" \/ E.doomed \/ E.uabort = "early" IN
-  IF E.uclosed THEN Same("XE_UploadableClosedOnce")
+  IF E.uclosed THEN Same("")                        \* closing again says nothing new
   ELSE IF ~givenUp /\ (E.rdone # NS \/ ~PhaseDone(E)) THEN Same("XE_UploadableClosedAfterLastSegment")
   ELSE V("", [E EXCEPT !.uclosed = TRUE], X)
 
